@@ -801,6 +801,86 @@ def run(prog, rep, tier):
                           "a record with a zero time and other fields set (acct records with ac_btime 0: 35 of the 111 in logs/CentOS9/x86_64/pacct) is never printed" % c.line)
     rep.examined(R814, tvb.path + "|inventory", nontrivial=False, sample={"comparisons_of_the_time_value_with_a_constant": consts_cmp, "judged": n814})
 
+    # ------------------------------------------------------------ R8.15 a record that cannot be decoded does not end the file
+    # process_entry_at answers Err((next_offset, error)).  `None` as next offset tells the worker to stop
+    # reading the file; that is right when the file itself cannot be read, but an entry that merely fails
+    # to decode (an all-0xFF "wiped" record sorts first by its raw time) has to carry Some(next) so the
+    # worker goes on - otherwise no record of the file is printed.
+    R815 = rep.rule("R8.15", "the Err answer for an undecodable entry carries the next offset (only read errors end the file)")
+    pe_ = prog.body("s4lib::readers::fixedstructreader::FixedStructReader::process_entry_at")
+    n815 = 0
+    for bb in sorted(pe_.live):
+        for st in pe_.stmts(bb):
+            if not (st[0] == "=" and st[1] == [0] and st[2][0] == "agg" and isinstance(st[2][1], dict) and st[2][1].get("variant") == "Err"):
+                continue
+            # the tuple (Option<FileOffset>, Error)
+            nxt = None
+            for o_ in pe_.origins(st[2][2][0]):
+                if o_[0] == "agg":
+                    tup = pe_.stmts(o_[1])[o_[2]][2]
+                    for o2 in pe_.origins(tup[2][0]):
+                        if o2[0] == "agg":
+                            k2 = pe_.stmts(o2[1])[o2[2]][2][1]
+                            nxt = k2.get("variant") if isinstance(k2, dict) else None
+            # which call's failure is this?
+            ctl = None
+            for sbb in sorted(pe_.live):
+                t = pe_.term(sbb)
+                if t[0] == "switch" and sbb != bb and pe_.dominates(sbb, bb):
+                    for o_ in pe_.origins(t[1]):
+                        if o_[0] == "discr":
+                            s2 = pe_.stmts(o_[1])[o_[2]]
+                            for o3 in pe_.origins(["cp", s2[2][1]]):
+                                if o3[0] == "call" and (ctl is None or pe_.dominates(ctl[0], sbb)):
+                                    ctl = (sbb, o3[2].split("::")[-2] + "::" + o3[2].split("::")[-1])
+            n815 += 1
+            rep.examined(R815, "%s|Err@%s" % (pe_.path, ctl[1] if ctl else "?"), sample={"after_failure_of": ctl[1] if ctl else None, "next_offset": nxt})
+            if ctl and ctl[1].endswith("FixedStruct::new") and nxt != "Some":
+                rep.violation(R815, "%s|Err@FixedStruct::new|no-next-offset" % pe_.path, "process_entry_at: when FixedStruct::new fails for one entry the answer carries no next offset, which makes the worker stop the whole file; "
+                              "one undecodable record (an all-0xFF record interleaved with valid ones sorts first) then suppresses every record of the file")
+    if n815 < 3:
+        raise CheckerError("R8.15: %d Err answers in process_entry_at" % n815)
+
+    # ------------------------------------------------------------ R8.16 the layout candidates never depend on the file name alone
+    # filesz_to_types first adds the layouts the file *name* suggests (with a bonus) and then every
+    # layout whose record size divides the file size - "try all types anyway; the file naming varies
+    # widely".  The name table is incomplete by design (wtmp/btmp/utmp hint only the BSD layouts), so a
+    # return of the candidate set that can skip the by-size part decodes Linux files whose record count
+    # happens to fit a hinted layout with the wrong layout.  Every `Some(set)` return is dominated by
+    # every by-size test.
+    R816 = rep.rule("R8.16", "filesz_to_types returns its candidate set only after every by-size test ran")
+    fb_ = prog.body("s4lib::data::fixedstruct::filesz_to_types")
+    hint_sw = None
+    for bb in sorted(fb_.live):
+        t = fb_.term(bb)
+        if t[0] == "switch":
+            for o_ in fb_.origins(t[1]):
+                if o_[0] == "discr":
+                    s2 = fb_.stmts(o_[1])[o_[2]]
+                    if s2[2][1][0] == 2 and hint_sw is None:
+                        hint_sw = bb
+    if hint_sw is None:
+        raise CheckerError("filesz_to_types: switch over the file-name kind not found")
+    t = fb_.term(hint_sw)
+    arm_heads = [tb_ for _v, tb_ in t[2] if fb_.pred[tb_] == [hint_sw]]
+    by_size = []
+    for bb in sorted(fb_.live):
+        for st in fb_.stmts(bb):
+            if st[0] == "=" and st[2][0] == "bin" and st[2][1].startswith("Rem") and not any(fb_.dominates(a_, bb) for a_ in arm_heads):
+                by_size.append(bb)
+    somes = []
+    for bb in sorted(fb_.live):
+        for st in fb_.stmts(bb):
+            if st[0] == "=" and st[1] == [0] and st[2][0] == "agg" and isinstance(st[2][1], dict) and st[2][1].get("variant") == "Some":
+                somes.append(bb)
+    early = [bb for bb in somes if not all(fb_.dominates(x, bb) for x in by_size)]
+    rep.examined(R816, fb_.path + "|candidate-set", sample={"by_name_arms": len(arm_heads), "by_size_tests": len(by_size), "returns_of_the_set": len(somes), "returns_that_can_skip_a_by_size_test": len(early)})
+    if len(by_size) < 10 or not somes:
+        raise CheckerError("R8.16: %d by-size tests, %d returns of the candidate set" % (len(by_size), len(somes)))
+    if early:
+        rep.violation(R816, fb_.path + "|candidate-set|early-return", "filesz_to_types can return the candidate layouts before all by-size tests ran (when the file name already suggested a fitting layout); "
+                      "a Linux wtmp whose record count is divisible by 5 or 19 also fits the hinted 40- or 304-byte BSD layouts and is then decoded with those - garbage lines or 'no valid fixed struct'")
+
     return rep.finish(
         "Static necessary-condition check of the accounting-record reader: the ordering index cannot lose records with equal times (key "
         "contains the record offset), the index is walked minimum-first in map order removing the served key, the prefilter loop accepts "
